@@ -342,7 +342,14 @@ LATE = {
     "C16": " A narrowed copy must not move the original's answers; failed reads on compressed files; a nominal time_coverage "
            "next to end fields.",
     "C17": " OemProps!BlockLaw (block-diagonal problems have block-diagonal S, G, A) is model-checked and replayed as histories of "
-           "composed problems with up to 39 measurements that share their outer blocks.",
+           "composed problems with up to 39 measurements that share their outer blocks. OemProps!LimitFamilyOver: an over-determined "
+           "K with vanishing noise (closed forms, both gain forms).",
+    "C06": " The radius also as 16- and 32-bit numpy integers (whole kilometres, mid-gap).",
+    "C08": " Every density conversion is repeated with the caller's grid array doubled in place.",
+    "C09": " e_eq_mixed_mk must leave the array it is given untouched and answer a second call alike.",
+    "C14": " column_relative_humidity with the axis counted from the end.",
+    "C18": " The one-shell check also in units 2^20 times larger (covariance entries around 1e-12).",
+    "C19": " ScoresProps!PinballHalf: integer-typed estimates against observations that are not whole numbers.",
     "C20": " TileCache has a 'garbage' outcome (a transfer that completes without delivering an archive); the cache directory "
            "carries glob metacharacters; the client changes returned grids in place between two requests; rectangles at 60 S.",
 }
